@@ -24,7 +24,9 @@ RULE = ('(a) every registered definition x every visible parameter position '
         'with an endless Python-level source carrying a pull budget of N+2 '
         '(a one-shot iterator, and an unsized re-iterable host collection); '
         '(b) Hypothesis: host data and expressions producing nested '
-        'containers of sizes N-1, N, N+1; (c) pipeline templates over endless '
+        'containers of sizes N-1, N, N+1 (engine created with the limits, '
+        'or the limits passed per call after the same text ran under '
+        'generous ones); (c) pipeline templates over endless '
         'sources; (d) Hypothesis: grow chains (concatenation, repetition with '
         'counts up to 10**12, join, replace, aggregate, accumulate, toList/'
         'toDict/groupBy/distinct/memorize/generate; integers grown by pow, '
@@ -234,9 +236,31 @@ def _build_data(shape, k):
     return inner
 
 
+class _PerCallAfterPlain:
+    """one base engine with generous limits; the text is first parsed and
+    evaluated under those, then again with the strict limits passed per
+    call - engine(text, options) - which is what must hold"""
+
+    def __init__(self, n, sets_to_lists):
+        self.base = common.engine({'yaql.limitIterators': 10 ** 6,
+                                   'yaql.memoryQuota': BIGQ})
+        self.opts = {'yaql.limitIterators': n,
+                     'yaql.convertSetsToLists': sets_to_lists}
+
+    def __call__(self, text):
+        try:
+            self.base(text)
+        except Exception:   # noqa
+            pass
+        return self.base(text, dict(self.opts))
+
+
 def check_shape(run, case):
     n, k = case['n'], case['k']
-    eng = _engine(n, convertSetsToLists=case.get('sets_to_lists', False))
+    if case.get('via') == 'percall-after-plain':
+        eng = _PerCallAfterPlain(n, case.get('sets_to_lists', False))
+    else:
+        eng = _engine(n, convertSetsToLists=case.get('sets_to_lists', False))
     if 'template' in case:
         text, model = SHAPE_TEMPLATES[case['template']]
         expected_max = max_container(model(k))
@@ -261,7 +285,8 @@ def check_shape(run, case):
         except Exception as e:   # noqa
             out = ('exc', e)
         desc = '$ with data shape %r, k=%d' % (case['shape'], k)
-    run.case(case, k in (n, n + 1), cls=['shape', (
+    run.case(case, k in (n, n + 1), cls=['shape', 'via=' + case.get(
+        'via', 'own-engine'), (
         'over' if expected_max > n else 'within')])
     ic = case.get('shape', {}).get('inner') if 'shape' in case else \
         'template:' + SHAPE_TEMPLATES[case['template']][0]
@@ -431,6 +456,10 @@ QUOTA_TEMPLATES = {
                      lambda c: 64 + 36 * c['m']),
     'str': ('str($s * $n)', lambda c: _str_size(len(c['s']) * max(c['n'], 0))),
     # integers are data too: they grow without bound
+    # a lazy inner collection that join() has to remember
+    'join-lazy-inner': ('[5, 7].join(range($m * 40).select($), $1 = $2, '
+                        '[$1, $2]).len()',
+                        lambda c: _list_size(c['m'] * 40)),
     'int-pow': ('pow(2, $m * 64)',
                 lambda c: sys.getsizeof(1 << (c['m'] * 64))),
     'int-shift': ('shiftBitsLeft(1, $m * 64) + 1',
@@ -568,6 +597,17 @@ def check_quota(run, case):
                         '%s under memoryQuota=%d: peak allocation %d bytes '
                         'before MemoryQuotaExceededException' % (
                             text, q, peak), input_class=name)
+    if name in ('join-lazy-inner', 'memorize') and \
+            predicted > 2 * q + 1024 and not (
+            out[0] == 'exc' and isinstance(
+                out[1], yexc.MemoryQuotaExceededException)):
+        run.violate('accumulation-over-quota-not-refused', case,
+                    '%s under memoryQuota=%d keeps a collection of '
+                    'predicted own size %d -> %s' % (
+                        text, q, predicted, _short(out[1])),
+                    exc=out[1] if out[0] == 'exc' else None,
+                    input_class=name)
+        return
     # (only where the size estimate is exact: ASCII strings and lists; the
     # estimate for non-ASCII strings over-counts the per-string header)
     if predicted < q / 4 and case['s'].isascii() and \
@@ -593,6 +633,8 @@ def shape_cases(draw):
     k = draw(st.sampled_from([max(n - 1, 0), n, n + 1, n + 1, n + 2, 0]))
     c = {'kind': 'shape', 'n': n, 'k': k,
          'sets_to_lists': draw(st.booleans())}
+    if draw(st.integers(0, 3)) == 0:
+        c['via'] = 'percall-after-plain'
     if draw(st.booleans()):
         c['template'] = draw(st.integers(0, len(SHAPE_TEMPLATES) - 1))
     else:
